@@ -35,6 +35,7 @@ int __real_posix_memalign(void** p, size_t al, size_t sz);
 void __real_free(void* p);
 int __real_pthread_mutex_lock(pthread_mutex_t* m);
 int __real_pthread_mutex_unlock(pthread_mutex_t* m);
+int __real_pthread_mutex_trylock(pthread_mutex_t* m);
 }
 
 namespace sim {
@@ -115,6 +116,7 @@ struct Global {
   uint64_t alloc_seq = 0;
   bool track = true;
   std::function<void(Block&)> on_alloc, on_free;
+  std::function<void()> on_mutex_unlock;
   std::vector<Region> regions;
   // mutex ownership
   std::map<const void*, int> mutex_owner;
@@ -746,6 +748,7 @@ void set_alloc_callbacks(std::function<void(Block&)> on_alloc, std::function<voi
   g.on_alloc = std::move(on_alloc);
   g.on_free = std::move(on_free);
 }
+void set_mutex_unlock_callback(std::function<void()> fn) { g.on_mutex_unlock = std::move(fn); }
 void ledger_set_tracking(bool on) { g.track = on; }
 void ledger_forget_all() {
   for (auto& kv : g.ledger) unpoison(kv.second);
@@ -885,6 +888,18 @@ int __wrap_pthread_mutex_lock(pthread_mutex_t* m) {
   }
 }
 
+// try_lock never blocks: it fails when the simulator's owner table says somebody (a parked thread) holds the mutex
+int __wrap_pthread_mutex_trylock(pthread_mutex_t* m) {
+  auto* st = tls_self;
+  if (!st || !g.active || !st->in_sim || st->hooks_off) return __real_pthread_mutex_trylock(m);
+  sim::HarnessScope hs;
+  sim::do_point(st, sim::K_MUTEX_LOCK, nullptr);
+  if (g.mutex_owner.find(m) != g.mutex_owner.end()) return EBUSY;
+  const int rc = __real_pthread_mutex_trylock(m);
+  if (rc == 0) g.mutex_owner[m] = st->id;
+  return rc;
+}
+
 int __wrap_pthread_mutex_unlock(pthread_mutex_t* m) {
   auto* st = tls_self;
   if (!st || !g.active || !st->in_sim || st->hooks_off) {
@@ -892,6 +907,7 @@ int __wrap_pthread_mutex_unlock(pthread_mutex_t* m) {
     return __real_pthread_mutex_unlock(m);
   }
   sim::HarnessScope hs;
+  if (g.on_mutex_unlock) g.on_mutex_unlock();
   const int rc = __real_pthread_mutex_unlock(m);
   g.mutex_owner.erase(m);
   for (auto& t : g.threads)
